@@ -7,7 +7,7 @@ from harness.props.vbsutil import P, ref_payload, ref_blockify
 PROP = 'C05'
 RULE = ("read histories on Unblock1014 over well-blocked, truncated and arbitrary files: every residue of "
         "bytes-already-delivered mod 1012 reached by 3 chunkings x boundary next sizes (quick) / every size 0..2024 "
-        "(thorough), read() with no size on non-empty streams, random histories; unblock_1014 on every truncation "
+        "(thorough), read() with no size on non-empty streams, random histories, real files opened 'rb' (fresh / sampled and rewound, several buffer sizes); unblock_1014 on every truncation "
         "length (thorough) / boundary lengths (quick) and single-byte corruptions of every trailer of 1..4-block files. "
         "Non-trivial = the history crosses a block boundary, uses a no-size read, or the input is rejected; distinct = "
         "distinct (file, history)")
@@ -33,7 +33,31 @@ def impl_eval(case):
     from cardutil import mciipm
     f = file_bytes(case['file'])
     if case['k'] == 'reads':
-        u = mciipm.Unblock1014(io.BytesIO(f))
+        tmp = None
+        if case.get('real'):
+            # a real file opened 'rb' (io.BufferedReader), optionally sampled and rewound first, as ipm_info-then-read does
+            import os
+            import tempfile
+            fd, tmp = tempfile.mkstemp(prefix='verif_c05_')
+            os.write(fd, f)
+            os.close(fd)
+            fobj = open(tmp, 'rb', buffering=case.get('buffering', -1))
+            if case['real'] == 'sampled':
+                fobj.read(case.get('sample', 2500))
+                fobj.seek(0)
+        else:
+            fobj = io.BytesIO(f)
+        try:
+            return reads_eval(case, f, mciipm.Unblock1014(fobj))
+        finally:
+            fobj.close()
+            if tmp:
+                os.unlink(tmp)
+    return other_eval(case, f)
+
+
+def reads_eval(case, f, u):
+    if True:
         outs = []
         for i, n in enumerate(case['reads']):
             if n is None:
@@ -52,6 +76,10 @@ def impl_eval(case):
         return {'obs': 'ok ' + ','.join(common.sig(o) for o in outs), 'violation': why,
                 'nontrivial': total >= P or None in case['reads'],
                 'tags': ['reads', 'nosize' if None in case['reads'] else 'sized']}
+
+
+def other_eval(case, f):
+    from cardutil import mciipm
     if case['k'] == 'unblock':
         o = io.BytesIO()
         try:
@@ -116,6 +144,17 @@ def explore(run, tier):
         reads = [rng.choice([None, 1, 4, rng.randrange(1, 50), rng.randrange(1, 1100), rng.randrange(1000, 1030),
                              rng.randrange(1, 3000)]) for _ in range(rng.randrange(1, 9))]
         cases.append({'k': 'reads', 'file': spec, 'reads': reads})
+    # real files ('rb' = BufferedReader), fresh or sampled-and-rewound, larger than the reader's buffer
+    for i in range(24 if tier == 'quick' else 300):
+        n = rng.choice([3000, 9000, 20000, 40000])
+        reads = [rng.choice([4, rng.randrange(1, 1100), rng.randrange(1000, 1030), rng.randrange(1, 3000)])
+                 for _ in range(rng.randrange(3, 30))] + [None]
+        cases.append({'k': 'reads', 'file': f'blk:{n}', 'reads': reads, 'real': ['fresh', 'sampled'][i % 2],
+                      'sample': rng.choice([1, 24, 2500, 5000]), 'buffering': rng.choice([-1, -1, 4096, 1014, 0])})
+    for n in (5000, 9000, 20000, 40000):
+        for sample in (1, 2500, 4096, 8192):
+            for reads in ([4, 300, 2000, None], [1012] * 6 + [None], [None], [5000, 5000, None]):
+                cases.append({'k': 'reads', 'file': f'blk:{n}', 'reads': reads, 'real': 'sampled', 'sample': sample})
     # long files and long histories: state that builds up over many blocks (buffer bookkeeping, compaction, ...)
     for i in range(120 if tier == 'quick' else 3000):
         n = rng.choice([9000, 12000, 20000, 33000, 60000])
